@@ -980,7 +980,7 @@ impl<'a> ActiveFileSet<'a> {
     }
 
     fn apply_retention(&mut self, fs: impl Filesystem, max_files: usize) {
-        while self.file_set.len() >= max_files {
+        while self.file_set.len() > max_files {
             let mut path = PathBuf::from(self.dir);
             path.push(self.file_set.pop().unwrap());
 
